@@ -213,7 +213,7 @@ theorem run_updates (vo : VOps V) (pid : Str) (ps cells : List Params) (hcells :
           rcases hop with ⟨a, _, e⟩ | ⟨x, t, _, e⟩
           · exact Or.inl ⟨_, _, e⟩
           · exact Or.inr ⟨_, _, _, e⟩)
-        have hcell := step_cell vo st op h.inv
+        have hcell := step_cell vo st op h.inv (opOK_of_nodup _ h.uniq op)
         have hact : st.actual = pid := h.hactual
         refine ⟨(step vo st op).1, by rw [hone]; rfl, hw.1, by rw [hw.2, hps], ?_, ?_⟩
         · intro fn k hno
